@@ -5,7 +5,7 @@ import OpusProofs.SilkSymsBasic
   regenerated from /repo (Gen/SilkIcdf.lean, Gen/SilkSyms.lean).  All by kernel evaluation.
 -/
 namespace Opus.SilkSymsProofs
-open Opus Opus.SilkSyms Opus.Gen.SilkIcdf
+open Opus Opus.SilkSyms Opus.SilkSymsFrozen.Icdf
 
 /-- Every ICDF slice the model can hand to `sym`, paired with the number of symbols it codes. -/
 def usedSlices : List (List Nat × Nat) :=
@@ -90,7 +90,7 @@ theorem cb_geometry (rate : Rate) :
   cases rate <;> decide +kernel
 
 theorem signTable_len : silk_sign_iCDF.length = 42 := by decide
-theorem stereoQuant_len : Gen.SilkSyms.silk_stereo_pred_quant_Q13.length = 16 := by decide
+theorem stereoQuant_len : SilkSymsFrozen.Consts.silk_stereo_pred_quant_Q13.length = 16 := by decide
 theorem shellOffsets_len : silk_shell_code_table_offsets.length = 17 := by decide
 
 end Opus.SilkSymsProofs
